@@ -1,7 +1,7 @@
 (* C03 — each element is constructed once and destroyed once.  Property theorems only.
    Owning types modelled: static_vector (non-trivial storage) and inplace_vector, for element types
-   with (fl = true) and without (fl = false) move operations, every capacity, every history of the
-   operations of C03.Model.op on two objects. *)
+   with (fl = true) and without (fl = false) move operations, every capacity (0 included: every
+   insertion stops at its precondition), every history of the operations of C03.Model.op on two objects. *)
 From Tetl Require Import Lib.Base C03.Trace C03.Model C03.Spec C03.ProofsTrace C03.ProofsRun C03.ProofsHist C03.ProofsVecSelf C03.ProofsVecDomain C03.ProofsMeetsSpec.
 
 (** * the automaton *)
@@ -93,6 +93,8 @@ Example C03_nonvacuous :
   history_completed true 3 false
     [EmplaceBack false 1; PushBackRv false 2; InsertCr false 0 3; MoveAssign true; Swap; SelfSwap false;
      EraseAt false 1; CopyConstruct false; MoveRoundTrip false; Resize true 2;
-     SetInsertRv true 5; SetEmplace true 4; SetEraseKey true 5; FlatInsertCr false 9; FlatEraseKey false 9] = true /\
+     SetInsertRv true 5; SetEmplace true 4; SetEraseKey true 5; FlatInsertCr false 9; FlatEraseKey false 9;
+     InsertRangeFwd true 0 [6]%Z; MoveInsertRangeFwd false 1 [8]%Z; AssignRangeFwd true [1; 2; 3]%Z; CtorRangeFwd [4; 5]%Z;
+     CtorMoveArr [6; 7; 8]%Z] = true /\
   history_completed false 2 true [IvTryPushCr false 1; IvUncheckedPushRv false 2; IvMoveConstruct false; IvCopyConstruct true] = true.
 Proof. split; vm_compute; reflexivity. Qed.
